@@ -8,6 +8,7 @@ import Driver.TmplD
 import Driver.ConfigD
 import Driver.ZkLoopD
 import Driver.ZkReaderD
+import Driver.ConsumeD
 
 /-!
   Line-protocol driver.  One operation per input line, one canonical output line per operation.
@@ -20,6 +21,7 @@ structure State where
   notifier : NotifierD.St := {}
   cluster : ClusterD.St := none
   zkreader : Burrow.ZkReader.St := {}
+  consume : ConsumeD.St := {}
 
 def step (st : State) (line : String) : State × String :=
   let line := line.trimAscii.toString
@@ -40,6 +42,9 @@ def step (st : State) (line : String) : State × String :=
   | "K" :: args =>
     let (s', out) := ClusterD.step st.cluster args
     ({ st with cluster := s' }, out)
+  | "P" :: args =>
+    let (s', out) := ConsumeD.step st.consume args
+    ({ st with consume := s' }, out)
   | "R" :: args =>
     let (s', out) := ZkReaderD.step st.zkreader args
     ({ st with zkreader := s' }, out)
